@@ -112,7 +112,7 @@ def run(prop, tier, seed):
             payload = {'property': PROP, 'kind': 'msglog', 'clause': r['clause'], 'signature': sig,
                        'events': [{'k': x['k'], 'kind': x['kind'], 'cut': x['cut']} for x in ls[1:] if x['i'] <= r['i']],
                        'peer_address': '2001:DB8::2' if r['tid'] >= 50000000 else '10.0.0.2',
-                       'disk_at_rejection': [x['disk'] for x in ls if x.get('i') == r['i']]}
+                       'disk_at_rejection': [x['disk'] for x in ls if x.get('i') == r['i']], 'files': [x.get('files') for x in ls if 'files' in x]}
             v.reject(r['clause'], sig, payload, 'trace=%d line=%d extra=%s' % (r['tid'], r['i'], json.dumps(r['extra'])))
         for d in drifts[:5]:
             print('DRIFT property=C20 step=%d event=%s model=%s real=%s' % (d['step'], json.dumps(d['ev']), json.dumps(d['model']), json.dumps(d['real'])))
